@@ -751,6 +751,28 @@ def check_slots(ctx):
                           '%s -> %s' % (refs, [got(s) for s in new]), replay)
             continue
 
+        # a list which mixes converted and unconverted slots (a task whose
+        # slots were partly set by the application) is converted slot by slot
+        if len(old) == 2:
+            for mixed in ([new[0], copy.deepcopy(old[1])],
+                          [copy.deepcopy(old[0]), new[1]]):
+                try:
+                    res = convert_slots_to_new(mixed)
+                    if not all(isinstance(s, Slot) and s.get('version', 0) >= 1
+                               for s in res):
+                        ctx.violation('slot-not-converted|convert_slots_to_new|'
+                                      'mixed:%s' % forms, 'mixed list %s -> %s'
+                                      % ([type(x).__name__ for x in mixed],
+                                         [type(x).__name__ for x in res]),
+                                      replay)
+                    elif [got(s) for s in res] != refs:
+                        ctx.violation('slot-indices|convert_slots_to_new|'
+                                      'mixed:%s' % forms, '%s -> %s' % (refs,
+                                      [got(s) for s in res]), replay)
+                except Exception as e:
+                    ctx.violation('slot-indices|convert_slots_to_new|mixed:%s'
+                                  % forms, 'mixed list: %r' % e, replay)
+
         # new is stable
         again = convert_slots_to_new(new)
         if [got(s) for s in again] != refs or \
